@@ -83,6 +83,11 @@ class PandasMaterializer(FormulaMaterializer):
     ) -> Any:
         if drop_rows:
             values = drop_nulls(values, indices=drop_rows)
+        if isinstance(values, (int, float, numpy.number)):
+            # A constant (e.g. a number from the context): one value per row.
+            values = numpy.full(
+                self.nrows - len(drop_rows), getattr(values, "__wrapped__", values)
+            )
         if spec.output == "sparse":
             if isinstance(values, FactorValues):
                 values = values.__wrapped__
